@@ -5,6 +5,8 @@ import (
 	"encoding/json"
 	"fmt"
 	"reflect"
+	"runtime"
+	"strconv"
 	"sync"
 
 	"verifharness/mon"
@@ -261,6 +263,48 @@ func c09(x *mon.Ctx) {
 	x.Require("content-field-extremes", 1000, 0, 1000)
 	x.Require("inner-type-and-size", 10, 1500, 1900)
 	x.Require("pattern-16MiB", 8, 0, 8)
+
+	// thorough tier, 64-bit only: inputs of 2 GiB and 2 GiB + 1 (a valid quote followed by zero bytes: lengths no 32-bit SIGNED
+	// size can hold; the format's own size fields are unsigned and do not describe the trailing bytes at all)
+	if !x.Quick() && strconv.IntSize == 64 {
+		shift := uint(31)
+		v := validQuotes(x, 1)[0]
+		want, _ := abi.QuoteToProto(v)
+		for _, n := range []int{1 << shift, 1<<shift + 1} {
+			b := make([]byte, n)
+			copy(b, v)
+			param := fmt.Sprintf("valid-quote-padded-to-%d-bytes", n)
+			prob := ""
+			var got any
+			var err error
+			pv, _ := mon.Guard(func() { got, err = abi.QuoteToProto(b) })
+			switch {
+			case pv != "":
+				// (a crash is C10's finding)
+			case err != nil:
+				prob = "library parser rejects a byte string that follows the v4 layout: " + err.Error()
+			default:
+				q := got.(*pb.QuoteV4)
+				wq := want.(*pb.QuoteV4)
+				if len(q.GetExtraBytes()) != n-len(v)+len(wq.GetExtraBytes()) || !proto.Equal(q.GetHeader(), wq.GetHeader()) || !proto.Equal(q.GetTdQuoteBody(), wq.GetTdQuoteBody()) || !proto.Equal(q.GetSignedData(), wq.GetSignedData()) {
+					prob = fmt.Sprintf("parsed message differs from the quote's: %d extra bytes, want %d", len(q.GetExtraBytes()), n-len(v)+len(wq.GetExtraBytes()))
+				} else {
+					var out []byte
+					pv, _ := mon.Guard(func() { out, err = abi.QuoteToAbiBytes(q) })
+					if pv == "" && (err != nil || !bytes.Equal(out, b)) {
+						prob = fmt.Sprintf("serialise(parse(b)) != b (err=%v, %d bytes)", err, len(out))
+					}
+				}
+			}
+			if prob != "" {
+				x.Violation("input-2GiB", param, prob, "none", param)
+			}
+			x.Note("input-2GiB", param, err == nil && pv == "", pv != "", prob == "")
+			got, b = nil, nil
+			runtime.GC()
+		}
+		x.Require("input-2GiB", 2, 0, 2)
+	}
 
 	// messages
 	nm := x.Pick(300, 20000)
